@@ -135,6 +135,41 @@ def run_case(acc, cseed, spec, stack_holder):
         req = {"command": "updateAncestorBlock", "version": 5,
                "blocks": [b["raw"].hex() for b in blocks]}
         acc.count("ancestor_requests")
+    if rng.random() < 0.12:
+        # the request before this one, on the same manager, was an advance / update that
+        # came to nothing part of the way through: refused by the device at some exchange,
+        # cut by a time-out, or refused by the manager for its last block.  Whatever that
+        # one left behind, this one is handed over as it is.
+        import copy as _copy
+        from ..simdev.transport import Fault
+        pre = _copy.deepcopy(req)
+        how = rng.choice(["device-refuses", "device-refuses", "time-out", "last-block-garbage",
+                          "last-block-truncated"])
+        if how == "time-out" and plat != "ledger":
+            how = "device-refuses"   # (socket failures are not classified by the dongle layer)
+        if how == "last-block-garbage":
+            pre["blocks"][-1] = "f8" + rng.randbytes(20).hex()
+        elif how == "last-block-truncated":
+            pre["blocks"][-1] = pre["blocks"][-1][:-rng.choice([2, 20, 200])]
+        elif how == "device-refuses":
+            s.bus.arm({rng.randint(0, 3 * nb + 2): Fault("sw", sw=rng.choice(
+                [0x6B87, 0x6B88, 0x6B90, 0x6B94, 0x6A8F]))})
+        else:
+            s.bus.arm({rng.randint(0, 3 * nb + 2): Fault("timeout")})
+        rp, ep, _ = s.request(pre)
+        case["preceded_by"] = [how, rp]
+        s.bus.arm({})
+        acc.count("cases_preceded_by_an_operation_that_came_to_nothing")
+        if ep is not None:
+            # (not this property's business; start over on a fresh manager)
+            s.__exit__(None, None, None)
+            stack_holder.pop(hk, None)
+            return
+        dev.adv_policy = pol
+        dev.chunk = chunk
+        dev.pending_link = None
+        if hasattr(dev, "reset_adv"):
+            dev.reset_adv()
     nrec = len(dev.adv_records)
     mark = len(s.bus.events)
     reply, exc, _ = s.request(req)
@@ -152,7 +187,8 @@ def run_case(acc, cseed, spec, stack_holder):
             return bad("malformed-reply", reply=reply)
         recs = dev.adv_records[nrec:]
         if len(recs) != 1:
-            return bad("device-saw-%d-dialogues" % len(recs))
+            return bad("device-saw-%d-dialogues" % len(recs), reply=reply,
+                       preceded_by=case.get("preceded_by"))
         rec = recs[0]
         if rec["cmd"] != (0x10 if is_adv else 0x30):
             return bad("wrong-command-byte", got=rec["cmd"])
